@@ -520,6 +520,7 @@ def _append(ex, obj, args, kw, line):
         vs = (v,) if obj.width == 1 else v
         if not (isinstance(vs, tuple) and len(vs) == obj.width and all(_isint(x) for x in vs)):
             raise EngineLimit("append of %r to a symbolic list of width %d" % (v, obj.width))
+        vs = tuple(ex.name_int(x, "elt") for x in vs)                       # terms inside triggers must not contain ite
         obj.set_terms([sym.LAPP(t, T(x)) for t, x in zip(obj.ts, vs)])      # in place: Python lists are mutable objects
         return None
     raise EngineLimit("append on %s" % type(obj).__name__)
@@ -538,9 +539,16 @@ def _insert(ex, obj, args, kw, line):
             obj.set_terms([sym.LCONS(T(args[1]), obj.t)])
             return None
         # insert(1, v): [l[0], v] + l[1:]  (an empty list takes v at the end, as Python does)
+        import z3 as _z3
+        if _z3.is_app(obj.t) and obj.t.decl().name() == "lcons":
+            # the list is syntactically head :: tail (it was just built by insert(0, .)): no case split, no fresh tail
+            obj.set_terms([sym.LCONS(obj.t.arg(0), sym.LCONS(T(args[1]), obj.t.arg(1)))])
+            return None
         if ex.branch_pruned(SInt(sym.LLEN(obj.t)) >= 1):
             head = SInt(sym.LAT(obj.t, 0))
+            keep = getattr(ex, "last_list_tail", None)
             tail = ex.list_tail(obj, line)
+            ex.last_list_tail = keep
             obj.set_terms([sym.LCONS(T(head), sym.LCONS(T(args[1]), tail.t))])
         else:
             obj.set_terms([sym.LAPP(obj.t, T(args[1]))])
